@@ -508,4 +508,62 @@ theorem random_deterministic (dflt : Int) (eu : List Nat) (ei : List Int) : ∀ 
           simp only [Draws.extend, List.cons_append, hnu, if_false, hd, if_true]
 
 end Random
+/-! ## non-vacuity: the hypotheses of every theorem above are satisfiable by non-trivial values -/
+
+section NonVacuity
+
+/-- `[[1, 0], [0, 0]]` -/
+def exNest : Nest Int 2 := ([[1, 0], [0, 0]] : List (List Int))
+/-- `[[0, 0], [0, 0]]` -/
+def exZero : Nest Int 2 := ([[0, 0], [0, 0]] : List (List Int))
+/-- `[7, 0, 1]` with default 7 -/
+def exLeaf : Nest Int 1 := ([7, 0, 1] : List Int)
+
+-- §1: content / canonical have no hypotheses; instances
+example : content (0 : Int) 2 (fromUncompressed 0 1 exNest) = [([0, 0], 1)] := by
+  rw [fromUncompressed_content]; decide
+example : content (7 : Int) 1 (fromUncompressed 7 0 exLeaf) = [([1], 0), ([2], 1)] := by
+  rw [fromUncompressed_content]; decide
+-- shape theorems: rectangular, positive dimensions, (not) all default
+example : rectB 2 [2, 2] exNest = true ∧ (∀ k ∈ [2, 2], 0 < k) ∧ allDefault (0 : Int) 2 exNest = false :=
+  ⟨by decide, by decide, by decide⟩
+example : calcShape 1 exZero = [2, 2] := fromUncompressed_tensor_shape 1 [2, 2] exZero (by decide) (by decide)
+example : fiberShape (0 : Int) 1 exNest = [2, 2] :=
+  fromUncompressed_fiber_shape_partial 0 1 [2, 2] exNest (by decide) (by decide) (Or.inl (by decide))
+example : fiberShape (0 : Int) 1 exZero = [2] :=
+  fromUncompressed_fiber_shape_allDefault 0 0 exZero (by decide)
+-- §2
+example : uncompress (0 : Int) 1 [2, 2] (fromUncompressed 0 1 exNest) = some exNest :=
+  uncompress_fromUncompressed_partial 0 1 [2, 2] exNest (by decide) (by decide) (by decide)
+example : uncompress (7 : Int) 0 [3] (fromUncompressed 7 0 exLeaf) = some exLeaf :=
+  uncompress_fromUncompressed_partial 7 0 [3] exLeaf (by decide) (by decide) (by decide)
+example : uncompress (0 : Int) 1 [2, 2] (fromUncompressed 0 1 exZero) = none :=
+  uncompress_fromUncompressed_allDefault_fails 0 1 [2, 2] exZero (by decide) (by decide) (by decide)
+
+-- §3: a rank-2 tensor with an explicit default and an empty sub-fiber, plain coordinates
+def exTree : Tree YCoord Int 2 :=
+  ([(YCoord.int 0, ([(YCoord.int 1, (0 : Int)), (YCoord.int 2, 5)] : List (YCoord × Int))),
+    (YCoord.int 3, ([] : List (YCoord × Int)))] : List (YCoord × List (YCoord × Int)))
+def exRep : TRep YCoord Int 2 :=
+  { rankIds := ["A", "B"], shape := [YCoord.int 4, YCoord.int 3], name := "T", root := exTree }
+example : allCoords YCoord.plain 2 exRep.root = true ∧ exRep.shape.all YCoord.plain = true := ⟨by decide, by decide⟩
+example : ∃ r, tensorYamlRoundtrip YCoord.plain exRep = some r ∧ r.root = exTree ∧ r.name = "" := by
+  obtain ⟨r, h, _, _, hroot, hname, _⟩ := tensor_yaml_roundtrip_partial YCoord.plain (0 : Int) exRep (by decide) (by decide)
+  exact ⟨r, h, hroot, by simpa using hname⟩
+/-- a flattened tensor: tuple coordinates -/
+def exTuple : TRep YCoord Int 1 :=
+  { rankIds := ["[\"A\", \"B\"]"], shape := [YCoord.tup [2, 2]], name := "",
+    root := ([(YCoord.tup [0, 0], (1 : Int))] : List (YCoord × Int)) }
+example : tensorYamlRoundtrip YCoord.plain exTuple = none :=
+  tensor_yaml_tuple_fails YCoord.plain exTuple (Or.inl (by decide))
+
+-- §4
+def exDraws : Draws := { us := [0, 1, 0], is := [3, 4, 5] }
+example : GoodDraws 2 0 exDraws := ⟨by decide, by decide⟩
+example : (fromRandom 0 1 [1, 2] [2, 2] exDraws).isSome = true := by decide
+example : ∀ t s', fromRandom 0 1 [1, 2] [2, 2] exDraws = some (t, s') → points 0 2 t = [[0, 0], [0, 1]] := by
+  intro t s' h
+  exact (random_full_at_density_one 0 2 1 [1, 2] [2, 2] exDraws s' t rfl (by decide) ⟨by decide, by decide⟩ h).2
+
+end NonVacuity
 end Ft
